@@ -856,6 +856,23 @@ def gen_code_for_conv(to_type, node, code, codegen):
         code.add((f'conv{from_char}{to_char}',))
 
 
+def gen_code_for_cond(cond, code, codegen, negate=False):
+    # generate code for a numeric condition (IF, WHILE, DO/LOOP). this
+    # leaves an INTEGER on the stack which is non-zero if and only if
+    # the condition is true, that is, its value is not zero (or, with
+    # negate set, if and only if its value is zero).
+    codegen.gen_code_for_node(cond, code)
+    if cond.type != expr.Type.INTEGER:
+        # compare with zero in the type of the condition itself. the
+        # value must not be converted to INTEGER: 70000& would overflow
+        # and 0.4 would be rounded to zero, while both are true.
+        code.add((f'push{cond.type.type_char}', 0), ('cmp',), ('ne',))
+    if negate:
+        # logical negation; "not" is a bitwise operation and is only
+        # the same thing for the values 0 and -1.
+        code.add(('eq',))
+
+
 def gen_code_for_args(args, param_types, code, codegen):
     for arg, param_type in zip(args, param_types):
         if isinstance(arg, expr.Lvalue):
@@ -1416,18 +1433,15 @@ def gen_loop(node, code, codegen):
 
     code.add(('_label', do_label))
     if node.kind.startswith('do_'):
-        codegen.gen_code_for_node(node.cond, code)
-        gen_code_for_conv(expr.Type.INTEGER, node.cond, code, codegen)
-        if node.kind == 'do_until':
-            code.add(('not',))
+        gen_code_for_cond(node.cond, code, codegen,
+                          negate=(node.kind == 'do_until'))
         code.add(('jz', loop_label))
 
     gen_code_for_block(node.body, code, codegen)
 
     if node.kind.startswith('loop_'):
-        codegen.gen_code_for_node(node.cond, code)
-        if node.kind == 'loop_while':
-            code.add(('not',))
+        gen_code_for_cond(node.cond, code, codegen,
+                          negate=(node.kind == 'loop_while'))
         code.add(('jz', do_label))
     else:
         code.add(('jmp', do_label))
@@ -1588,8 +1602,7 @@ def gen_if_block(node, code, codegen):
     for cond, body in node.if_blocks:
         else_label = codegen.get_label('else')
 
-        codegen.gen_code_for_node(cond, code)
-        gen_code_for_conv(expr.Type.INTEGER, cond, code, codegen)
+        gen_code_for_cond(cond, code, codegen)
         code.add(('jz', else_label))
 
         if cur_else_stmt and codegen.debug_info_enabled:
@@ -1622,8 +1635,7 @@ def gen_if_stmt(node, code, codegen):
     else_label = codegen.get_label('else')
     endif_label = codegen.get_label('endif')
 
-    codegen.gen_code_for_node(node.cond, code)
-    gen_code_for_conv(expr.Type.INTEGER, node.cond, code, codegen)
+    gen_code_for_cond(node.cond, code, codegen)
     code.add(('jz', else_label))
     gen_code_for_block(node.then_stmts, code, codegen)
     code.add(('jmp', endif_label))
@@ -1923,8 +1935,7 @@ def gen_while_block(node, code, codegen):
     wend_label = codegen.get_label('wend')
 
     code.add(('_label', check_label))
-    codegen.gen_code_for_node(node.cond, code)
-    gen_code_for_conv(expr.Type.INTEGER, node.cond, code, codegen)
+    gen_code_for_cond(node.cond, code, codegen)
     code.add(('jz', wend_label))
 
     code.add(('_label', body_label))
